@@ -4,6 +4,7 @@
 #![deny(missing_docs)]
 #![doc = include_str!("../README.md")]
 #![cfg_attr(docsrs, feature(doc_cfg))]
+#![allow(unexpected_cfgs)]
 
 pub use metrique_writer_core::entry::{BoxEntry, Entry, EntryConfig, EntryWriter};
 pub use metrique_writer_core::global::GlobalEntrySink;
@@ -35,3 +36,7 @@ pub use metrique_writer_core::unit;
 pub use stream::EntryIoStreamExt;
 
 pub(crate) type CowStr = std::borrow::Cow<'static, str>;
+
+#[cfg(metrique_verif)]
+#[doc(hidden)]
+pub use rate_limit::__verif_pin_epoch;
